@@ -34,6 +34,15 @@ Module SpellExamples.
   (* options only *)
   Definition F0 := mk [EOpt o_verbose; EOpt o_quiet; EOpt o_num; EOpt o_tag; EOpt o_color; EOpt o_level] None.
 
+  (* an argument that has the name of the first pseudo-argument (the parser's fresh-name loop must skip it) *)
+  Definition a_cmd11 := {| a_name := s "cmd11"; a_flags := 17; a_default := VNone |}.
+  Definition F3 := mk [ECName c_server; ECName c_add; EArg a_cmd11; EArg a_host; EOpt o_verbose] None.
+  Definition D6 := {| ld_names := [s "server"]; ld_items := [IPos (s "x"); IFlag o_verbose false; IPos (s "y")]; ld_tail := None |}.
+  Example F3_ok : fmt_ok F3 = true /\ wf_line F3 D6 = true /\
+                  denote F3 D6 = {| ar_opts := [(s "verbose", VBool true)];
+                                    ar_args := [(s "cmd11", VStr (s "x")); (s "host", VStr (s "y"))] |}.
+  Proof. split; [|split]; vm_compute; reflexivity. Qed.
+
   Example F0_ok : fmt_ok F0 = true. Proof. vm_compute. reflexivity. Qed.
   Example F1_ok : fmt_ok F1 = true. Proof. vm_compute. reflexivity. Qed.
   Example F2_ok : fmt_ok F2 = true. Proof. vm_compute. reflexivity. Qed.
